@@ -116,9 +116,20 @@ function genSem(rng, params) {
     const other = rng.pick([A("string"), A("number"), [A("array"), A("string")]]);
     const a = [A("union"), cont, other];
     const wider = head(cont) === "bi" && cont[1] === "Set" ? [A("bi"), "Set", [A("union"), el, A("string")]] : [A("bi"), "Map", A("string"), [A("union"), el, A("string")]];
-    const b = rng.pick([cont, cont, wider, other]);
+    let b = rng.pick([cont, cont, wider, other]);
+    // two Maps / Sets on the left whose key (element) types differ, and a Map / Set with a NARROWER key on the right: the
+    // clause `Map<K1, V> & not Map<K2, V>` is not empty when K1 is not within K2
+    let extraTypes = [];
+    if (rng.chance(1, 3)) {
+      const k1 = [A("union"), A("string"), A("number")], k2 = A("boolean"), v1 = rng.pick([A("boolean"), el]);
+      const mk = (k, v) => (rng.chance(1, 2) ? [A("bi"), "Map", k, v] : [A("bi"), "Set", k]);
+      const c1 = [A("bi"), "Map", k1, v1], c2 = rng.chance(1, 2) ? [A("bi"), "Map", k2, A("string")] : [A("bi"), "Set", k1];
+      a.splice(1, a.length - 1, c1, c2, ...(rng.chance(1, 2) ? [other] : []));
+      b = rng.pick([[A("bi"), "Map", A("string"), v1], [A("bi"), "Map", A("number"), v1], [A("bi"), "Set", A("string")], c2]);
+      extraTypes = [c1, c2, [A("bi"), "Map", A("number"), v1], [A("bi"), "Map", A("string"), v1], [A("bi"), "Set", A("number")]];
+    }
     const p2 = [A("prog"), ds, []];
-    const vals = semValues(rng, p2, [a, cont, other, el], Number(params[0] || 10));
+    const vals = semValues(rng, p2, [a, cont, other, el, ...extraTypes], Number(params[0] || 10));
     const src = ds.map(tsOfDecl).join("\n") + `\nparse.buildParsers<{ R: Exclude<${tsOf(a)}, ${tsOf(b)}> }>();\n`;
     return [A("sem"), A(String(counter++)), [A("prog"), ds, [["R", [A("exclude"), a, b]]]], [["entry.ts", src]], vals.map(encVal)];
   }
